@@ -20,7 +20,7 @@ import (
 
 type richJob struct {
 	Prod   int
-	Cancel int // 0 none, 1 by the producer right after Add, 2 by the canceller goroutine
+	Cancel int // 0 none, 1 by the producer right after Add, 2 by the canceller goroutine, 3 by a closer that waits for the Finished window
 	Work   time.Duration
 	Out    int // 0 ok, 1 error, 2 panic
 	Batch  int // -1: single Add
@@ -106,7 +106,7 @@ func drawRich(r *Rng, b richBias) richCfg {
 	for i := 0; i < n; i++ {
 		j := richJob{Prod: r.Intn(c.Prods), Batch: -1, Work: Pick(r, 0, 0, time.Microsecond, 20*time.Microsecond, time.Millisecond)}
 		if r.Chance(b.Cancel) {
-			j.Cancel = 1 + r.Intn(2)
+			j.Cancel = 1 + r.Intn(3)
 		}
 		if b.Outcomes {
 			j.Out = Pick(r, 0, 0, 0, 1, 2)
@@ -380,6 +380,32 @@ func epRich(c *RunCtx, cfg richCfg) *Result {
 						k.Close(i)
 					case 2:
 						cancelCh <- i
+					case 3:
+						// close the job in the window after its function returned (status Finished) and
+						// before the worker closed it; afterwards the status must read Closed for good
+						if r := k.Recs[i]; r.H != nil {
+							pwg.Add(1)
+							go func() {
+								defer pwg.Done()
+								for spin := 0; spin < 4000; spin++ {
+									if st := r.H.Status(); st == "Finished" || st == "Closed" {
+										break
+									}
+									if spin%64 == 63 {
+										time.Sleep(time.Microsecond)
+									} else {
+										runtime.Gosched()
+									}
+								}
+								k.Close(i)
+								for x := 0; x < 3; x++ {
+									if st := r.H.Status(); r.CloseErr == nil && st != "Closed" {
+										e.Fail("C16", "backwards", "Closed>"+st, fmt.Sprintf("job %d: Close returned nil, then the status reads %s", i, st))
+									}
+									runtime.Gosched()
+								}
+							}()
+						}
 					}
 				}
 			}(p)
